@@ -181,3 +181,26 @@ func TestFixedD43D44(t *testing.T) {
 		t.Fatalf("pending leaked: %d", p)
 	}
 }
+
+func TestFixedD24BreakerIntervalShorterThanTicks(t *testing.T) {
+	// before the repair: accepted, and the first Do / Status divided by zero in slide()
+	if b, err := NewOutboundBreaker(10, 3); err == nil {
+		defer func() {
+			if r := recover(); r != nil {
+				t.Fatalf("breaker with a 3ns interval panicked: %v", r)
+			}
+		}()
+		b.Do(func() error { return nil })
+	}
+}
+
+func TestFixedResolveServiceEmptyURLList(t *testing.T) {
+	ctx, loc := indexedLoc(t, "rs")
+	c := *loc.Control()
+	c.Services = map[string][]string{"svc": {}}
+	loc.SetControl(&c)
+	got, err := loc.ResolveService(ctx, "svc")
+	if err != nil || got != "svc" {
+		t.Fatalf("got %q, %v", got, err)
+	}
+}
